@@ -47,14 +47,14 @@ class Gen:
         return ''.join(r.choice(string.ascii_lowercase) for _ in range(r.choice([2, 2, 3, 4, 6]))) + \
                ''.join(r.choice(string.digits) for _ in range(r.choice([0, 0, 0, 1, 2])))
 
-    def name(self):
+    def name(self, allow_wild=True):
         """Field-name grammars.  canonical: words [a-z]{2,}[0-9]* joined by single underscores (default);
         opts['ext_names'] = probability of the wider LOWER-CASE grammar: words [a-z]+[0-9]* joined by runs of 1..4
         underscores (point2_x, utf8_s, retry___count, x);  opts['wild_names'] = probability of a WILD identifier:
         leading / trailing underscores, capitals inside (mixedCase, UPPER_x, _private, trailing_)."""
         r = self.r
         c = r.random()
-        wild = c < self.opts.get('wild_names', 0)
+        wild = allow_wild and c < self.opts.get('wild_names', 0)
         ext = wild or c < self.opts.get('wild_names', 0) + self.opts.get('ext_names', 0)
         for _ in range(200):
             k = r.choice([1, 2, 2, 3])
@@ -62,7 +62,7 @@ class Gen:
                 ws = [self.word(True) for _ in range(k)]
                 n = ws[0]
                 for w in ws[1:]:
-                    n += '_' * r.choice([1, 1, 1, 2, 3, 4]) + w
+                    n += ('_' * r.choice([2, 3, 4]) if r.random() < self.opts.get('us_runs', 0.3) else '_') + w
             else:
                 n = '_'.join(self.word() for _ in range(k))
             if wild:
@@ -85,10 +85,10 @@ class Gen:
                 return n
         return 'fallback_name%d' % self.fresh()
 
-    def names(self, k):
+    def names(self, k, allow_wild=True):
         out, keys = [], set()
         while len(out) < k:
-            n = self.name()
+            n = self.name(allow_wild)
             key = n.replace('_', '').lower()
             if key not in keys:
                 keys.add(key); out.append(n)
@@ -209,7 +209,7 @@ class Gen:
             return {'t': 'union', 'es': es}
         if ctx == 'nt':
             i = self.fresh()
-            a, b = self.names(2)
+            a, b = self.names(2, allow_wild=False)       # namedtuple fields cannot start with an underscore
             return {'t': 'nt', 'id': i, 'name': 'N%d' % i, 'fields': [[a, inner, None], [b, {'t': 'int'}, {'v': 'int', 'x': '7'}]]}
         if ctx == 'td':
             i = self.fresh()
@@ -424,6 +424,7 @@ class Gen:
     def vkey(v):
         """Python-equality class of a value spec (1 == True == 1.0; equal Decimals; equal instants)."""
         import json, decimal
+        v = {a: b for a, b in v.items() if a != 'sub'}
         k = v['v']
         if k in ('bool', 'int'):
             return ('num', int(v['x']))
